@@ -73,8 +73,19 @@ def _prec_value(v, precs):
     raise Unsupported(f"precedence value {v}")
 
 
-def _class_names(model, mapper, v):
+def _class_names(model, mapper, v, own=None):
     """value of a force_parens_around assignment -> tuple of class names"""
+    if v[0] == "seq" and len(v) == 5 and v[2] == ("elem", v[3]) and \
+            own is not None:
+        # a comprehension over a tuple of classes that leaves out the class
+        # of the node at hand: (c for c in <classes> if c is not type(expr))
+        import re
+        names = _class_names(model, mapper, v[3])
+        for flt in v[4]:
+            if not re.fullmatch(r"\w+ is not type\(\w+\)", str(flt)):
+                raise Unsupported(f"forced set filter {flt}")
+            names = tuple(x for x in names if x != own)
+        return names
     if v[0] == "lit":
         out = []
         for x in v[2]:
@@ -562,15 +573,54 @@ def _check_helpers(model, mapper, table):
                                        ()),), (), ("recv", joiner, "join")),
              ("star", iterable)), ())
     if not all(ps.retval == want for ps in pss):
-        raise AnalysisError("join() body not recognised")
+        # not the shape known: the helper interpreted on lists of pieces --
+        # empty pieces among them, which map_slice hands in for omitted bounds
+        # -- must be str.join
+        wit = _judge_join(model, mem)
+        if wit:
+            raise ModelViolation(
+                "T/printer/join/is-str-join",
+                f"{mem.owner.module.relpath}:{mem.node.lineno}",
+                "join(joiner, pieces) is not joiner.join(pieces): "
+                + "; ".join(wit[:2]) + " -- an omitted slice bound is handed "
+                "in as the empty piece, so a[:i] is printed as a[i]")
 
 
-def _forced_of(model, mapper, ps):
+def _judge_join(model, mem):
+    from .absint import Interp, Obj, Opaque, Raised, StepBound, module_env
+    glob = module_env(mem.owner.module.tree, {})
+    wit = []
+    for joiner in (":", " + "):
+        for pieces in ([], ["a"], ["a", "b"], ["", "b"], ["a", ""], ["", ""],
+                       ["a", "", "c"]):
+            def fmt(it, nd, a, k):
+                try:
+                    return a[0] % tuple(a[1:])
+                except TypeError:
+                    raise Raised(nd, "TypeError")
+            it = Interp(calls={"self.format": fmt},
+                        attrs=lambda it_, n_, b, at: Opaque(ast.unparse(n_)),
+                        globals_=glob, max_steps=5000)
+            try:
+                got = it.call_function(mem.node, [Obj("printer", {}), joiner,
+                                                  list(pieces)], dict(glob))
+            except Raised as r:
+                wit.append(f"join({joiner!r}, {pieces!r}) raises at line "
+                           f"{getattr(r.node, 'lineno', '?')}")
+                continue
+            except StepBound:
+                raise AnalysisError("join(): does not terminate")
+            if got != joiner.join(pieces):
+                wit.append(f"join({joiner!r}, {pieces!r}) gives {got!r}")
+    return wit
+
+
+def _forced_of(model, mapper, ps, own=None):
     forced = ()
     for e in ps.events:
         if e.kind == "itemwrite" and e.arg == ("kwargs",) and e.args and \
                 e.args[0] == ("const", "force_parens_around"):
-            forced = _class_names(model, mapper, e.value)
+            forced = _class_names(model, mapper, e.value, own)
     return forced
 
 
@@ -599,7 +649,7 @@ def _extract_handler(model, mapper, n: NodeClass, mem, precs, _depth=0):
                 raise
             if c is not None:
                 conds.append(c)
-        forced = _forced_of(model, mapper, ps)
+        forced = _forced_of(model, mapper, ps, n.name)
         conv = _Conv(model, mapper, precs, forced)
         for nm, val in ps.env.items():
             if isinstance(val, tuple) and val and val[0] == "lit" and val[2] and all(
